@@ -21,7 +21,8 @@ def payload(rng, semi: bool = False) -> str:
     r = rng.random()
     if r < 0.7:
         return rng.choice(PAYLOADS)
-    n = rng.randint(1, 12)
+    # now and then longer than the 25 bytes a real MySensors radio frame carries: the serial protocol has no such limit
+    n = rng.randint(1, 12) if r < 0.93 else rng.randint(26, 70)
     alphabet = "abcXYZ019 .,:-_/ÅÄö€"
     s = "".join(rng.choice(alphabet) for _ in range(n)).rstrip()
     return s
